@@ -8,3 +8,4 @@ import TempestVerif.Props.C09
 import TempestVerif.Props.C06
 import TempestVerif.Props.C20
 import TempestVerif.Props.C05
+import TempestVerif.Props.C13
